@@ -2,6 +2,7 @@
 billiard/pool.py by differential correspondence on fake-process histories."""
 from vlib import core
 from props import poolcommon as pc
+from props import C03 as worker
 
 MANIFEST = dict(
     text='Theorems: a cached accepted unresolved Apply job past its effective hard limit when a scan starts is failed by that scan with TimeLimitExceeded(own limit) whatever else is cached; never early; map/imap and unaccepted jobs untouched and the scan does not raise; TERM/KILL go to the owner only; job limit takes precedence; the next supervision pass restores the pool size (also size 1). Refuted with a witness (known finding): a per-job limit on a pool created without limits is enforced by nobody.',
@@ -14,12 +15,24 @@ FOCUS = {'scan': 12, 'advance': 12, 'ack': 12, 'apply': 12, 'tick': 8, 'ready': 
 
 
 def run(res):
-    res.proof_step('Props/C05.v', extra_targets=['Model/Pool.vo'], kernels_needed=['G_pool_shape', 'K_timedout'])
+    res.proof_step('Props/C05.v', extra_targets=['Model/Pool.vo', 'Model/Worker.vo'], kernels_needed=['G_pool_shape', 'K_timedout', 'K_worker'])
     n = 150 if res.tier == 'quick' else 6000
     if res.broken:
         n = max(n, 1500)      # failing-input search on the implementation
     pc.pool_check(res, 'C05', n, focus=FOCUS)
-    pc.real_scenarios(res, 'C05', [dict(kind='hard_timeout', n=1, hard=1), dict(kind='hard_timeout', n=2, hard=1)] if res.tier == 'quick' else [dict(kind='hard_timeout', n=n, hard=h) for n in (1, 2, 4) for h in (1, 2)])
+    pc.real_scenarios(res, 'C05', [dict(kind='hard_timeout', n=1, hard=1), dict(kind='hard_timeout', n=2, hard=1), dict(kind='hard_timeout', n=1, hard=1, task='convert'), dict(kind='hard_timeout', n=1, hard=1, task='finally_raises')] if res.tier == 'quick' else [dict(kind='hard_timeout', n=n, hard=h, task=t) for n in (1, 2, 4) for h in (1, 2) for t in ('sleep', 'convert', 'finally_raises')])
+    # worker side ("the worker honours the termination signal instead of treating it as a task
+    # error"): the real Worker.workloop against the worker model the C05 worker theorems are about;
+    # termination requests inside tasks, and tasks that raise after the request, are part of the
+    # generated scripts
+    before = len(res.alarms)
+    worker.correspond(res, 120 if res.tier == 'quick' else 4000)
+    c03_known = {k['signature'] for k in core.load_known() if k.get('status') == 'known' and k.get('property') == 'C03'}
+    kept = [a for a in res.alarms[before:] if a['signature'] not in c03_known]
+    del res.alarms[before:]
+    res.alarms.extend(kept)
+    for a in res.alarms[before:]:
+        a['signature'] = a['signature'].replace('C03:', 'C05:worker-')
     res.assumptions += pc_assumptions()
 
 
